@@ -65,6 +65,10 @@ def model_names(t):
     return [s[1]["name"] for s in tspec.walk(t) if s[0] == "model"]
 
 
+def _saturator(obj, extra):
+    return None
+
+
 def build_layouts(layouts, e):
     out = []
     for name, how in layouts.items():
@@ -81,6 +85,8 @@ def build_layouts(layouts, e):
         elif how == "forbid":
             from adaptix import ExtraForbid  # noqa: PLC0415
             out.append(name_mapping(cls, extra_in=ExtraForbid()))
+        elif how == "saturate":
+            out.append(name_mapping(cls, extra_in=_saturator))   # unknown data is collected and handed to a function
         elif how == "kwargs":
             from adaptix import ExtraKwargs  # noqa: PLC0415
             out.append(name_mapping(cls, extra_in=ExtraKwargs()))
@@ -99,7 +105,7 @@ def st_case(draw):
         for s_ in tspec.walk(t):
             if s_[0] == "model" and draw(st.integers(0, 2 if not (model_root and s_ is t) else 0)) == 0:
                 ms = s_[1]
-                how = draw(st.sampled_from(["as_list", "nested_dict", "forbid"]))
+                how = draw(st.sampled_from(["as_list", "nested_dict", "forbid", "saturate"]))
                 in_union = any(u[0] == "union" and any(tspec.strip(c) is s_ or tspec.strip(c) == s_ for c in u[1]) for u in tspec.walk(t))
                 if how == "as_list" and (any(f.get("d") is not None for f in ms["fields"]) or in_union or not ms["fields"]):
                     how = "forbid"
@@ -119,11 +125,18 @@ def st_case(draw):
             ops = ["listified_sets", *ops]
         else:
             datum, ops = draw(soup.st_soup()), ["soup"]
+    if draw(st.integers(0, 11)) == 0:
+        # an int above the int-to-str digit limit (4300 digits) as a leaf or as a mapping key: anything that renders it
+        # (a trail note, a message) fails with ValueError
+        pos = [p for p in soup.positions(datum) if p]
+        big = {"$": "pow10", "e": draw(st.sampled_from([4300, 5000])), "neg": draw(st.booleans())}
+        datum = soup.set_at(datum, draw(st.sampled_from(pos)), big) if pos else big
+        ops = [*ops, "bigint"] if ops != ["soup"] else ["soup+bigint"]
     provs = draw(st.lists(st.sampled_from(PROVS), max_size=2, unique=True)) if draw(st.integers(0, 3)) == 0 else []
     layouts = {}
     for n in model_names(t):
         if draw(st.integers(0, 3)) == 0:
-            layouts[n] = draw(st.sampled_from(["as_list", "nested", "forbid"]))  # ExtraKwargs: documented TypeError zone
+            layouts[n] = draw(st.sampled_from(["as_list", "nested", "forbid", "saturate"]))  # ExtraKwargs: documented TypeError zone
     return {"t": t, "datum": datum, "ops": ops, "strict": draw(st.booleans()), "debug": draw(st.integers(0, 2)),
             "provs": provs if not near else [], "layouts": layouts if not near else near_layouts}
 
@@ -134,6 +147,14 @@ def datum_depth(v, d=0):
     if isinstance(v, dict) and "v" in v and isinstance(v["v"], list):
         return max([d] + [datum_depth(x, d + 1) for x in v["v"]])
     return d
+
+
+def _safe(fn, fallback):
+    """Text of something that may contain an int without decimal text (see the pow10 value tag)."""
+    try:
+        return fn()
+    except Exception:  # noqa: BLE001
+        return f"<unrenderable: {fallback}>"
 
 
 def check_case(ctx: runner.Ctx, case):
@@ -173,7 +194,8 @@ def check_case(ctx: runner.Ctx, case):
              sample={"type": tspec.text(t), "datum": case["datum"], "strict": case["strict"], "debug": case["debug"],
                      "outcome": outcome, "provs": case.get("provs"), "layouts": case.get("layouts")},
              labels=[f"outcome:{outcome}", f"debug:{case['debug']}", f"strict:{case['strict']}", f"top:{t[0]}",
-                     "src:" + ("soup" if case["ops"] == ["soup"] else "atheris" if case["ops"] == ["atheris"] else
+                     "src:" + ("soup" if case["ops"] in (["soup"], ["soup+bigint"]) else "atheris" if case["ops"] == ["atheris"] else
+                               "table" if case["ops"] == ["table"] else
                                "model_root_structure" if str(case["ops"][:1]).startswith("['root:") else
                                f"near{min(len(case['ops']), 3)}"),
                      *[f"layout:{h}" for h in set((case.get("layouts") or {}).values())],
@@ -184,7 +206,9 @@ def check_case(ctx: runner.Ctx, case):
                                              else "plain_group")
         ctx.violation("non_loaderror", (type(foreign).__name__, exc_site(foreign), how), case,
                       f"type={tspec.text(t)} strict={case['strict']} debug={case['debug']} provs={case.get('provs')} "
-                      f"layouts={case.get('layouts')} datum={datum!r}: {describe(exc)} / foreign: {describe(foreign)}")
+                      f"layouts={case.get('layouts')} datum={_safe(lambda: repr(datum), case['datum'])}: "
+                      f"{_safe(lambda: describe(exc), type(exc).__name__)} / foreign: "
+                      f"{_safe(lambda: describe(foreign), type(foreign).__name__)}")
 
 
 # ------------------------------------------------------------------------------ user code raising non-LoadError
@@ -314,7 +338,34 @@ def atheris_stage(ctx: runner.Ctx, runs: int):
     shutil.rmtree(os.path.join(out, "corpus"), ignore_errors=True)
 
 
+def hostile_table_cases():
+    """Every type-aimed hostile string (soup.HOSTILE_BY_TAG) and every general hostile string / number against the scalar it
+    aims at, bare and as list element / dict value / dict key, in the six mode combinations."""
+    for tag, strings in sorted(soup.HOSTILE_BY_TAG.items()):
+        specs = [["ip", n] for n in tspec.IP_NAMES] if tag == "ip" else [[tag]]
+        for spec in specs:
+            for d in [*strings, *soup.HOSTILE_DATA_BY_TAG.get(tag, []), *soup.HOSTILE_STRINGS, *soup.HOSTILE_NUMBERS,
+                      {"$": "pow10", "e": 5000, "neg": False}]:
+                for shape in ("bare", "list", "dict_value", "dict_key"):
+                    if shape == "dict_key" and (tag not in tspec.HASHABLE_KEY_TAGS or not isinstance(d, (str, int, float))):
+                        continue
+                    t = {"bare": spec, "list": ["list", spec, "typing"], "dict_value": ["dict", ["str"], spec, "typing"],
+                         "dict_key": ["dict", spec, ["int"], "typing"]}[shape]
+                    datum = {"bare": d, "list": [d], "dict_value": {"$": "d", "v": [["k", d]]},
+                             "dict_key": {"$": "d", "v": [[d, 1]]}}[shape]
+                    for mode in range(6):
+                        yield {"t": t, "datum": datum, "ops": ["table"], "strict": bool(mode % 2), "debug": mode // 2,
+                               "provs": [], "layouts": {}}
+
+
 def explore(ctx: runner.Ctx):
+    n_tab = 0
+    for i, c in enumerate(hostile_table_cases()):
+        n_tab += 1
+        if i % ctx.nshards == ctx.shard:
+            runner.guarded(ctx, lambda k: check_case(ctx, k), c)
+    ctx.mark_exhaustive(f"hostile-scalar table: {n_tab} cases = every aimed / general hostile string and number x the scalar "
+                        f"type it aims at x (bare, list element, dict value, dict key) x 6 mode combinations")
     n = ctx.budget(8000, 500000)
     ctx.given(st_case(), lambda c: check_case(ctx, c), n)
     ctx.given(st_user_case(), lambda c: check_case(ctx, c), max(50, n // 40), seed_offset=1)
